@@ -55,6 +55,12 @@ impl Ntv2Grid {
             let (name, parent, grid) = subgrid::ntv2_subgrid(&parser, offset)?;
             offset += HEADER_SIZE + grid.grid.len() / 2 * NODE_SIZE;
 
+            // `find_grid` walks from the root grids (parent `NONE`) towards the leaves,
+            // which only makes sense (and ends) if the names identify the subgrids
+            if name == "NONE" || subgrids.contains_key(&name) {
+                return Err(Error::Invalid("Bad or duplicate subgrid name".to_string()));
+            }
+
             // The NTv2 spec does not guarantee the order of subgrids, so we must create
             // a lookup table from parent to children to make it possible for `find_grid` to
             // have a start point for working out which subgrid, if any, contains the point
@@ -63,6 +69,10 @@ impl Ntv2Grid {
                 .entry(parent)
                 .or_insert_with(Vec::new)
                 .push(name);
+        }
+
+        if !lookup_table.contains_key("NONE") {
+            return Err(Error::Invalid("No root grid".to_string()));
         }
 
         Ok(Self {
